@@ -28,6 +28,8 @@
      Register(c)     Clients::register -> Client::new moves the guard into the spawned actor
      SvcPing / SvcDeliver / ActorMsg / LoopFlush     actor select arms (client ping -> pong; packet
                      from the queue; status message after being displaced; per-iteration flush)
+     SvcTick / SvcPongBack / PongTimeout             keep-alive: the server's Ping is written when the
+                     ping interval fires, the client's Pong is read, or PingTracker::timeout ends the actor
      Displace(c)     another connection of the same endpoint registers (not tracked further)
      Close(c)        the client closes: the actor reads end-of-stream
      Disconnect(c)   Clients::disconnect(endpoint, Some(id) | None) -> start_shutdown()
@@ -53,7 +55,8 @@ CONSTANTS Conns, Keys, KeyOf,
           GuardLate
 
 None == "none"
-SvcScript == IF Script = "full" THEN <<"ping", "deliver">> ELSE IF Script = "ping" THEN <<"ping">> ELSE <<>>
+SvcScript == IF Script = "full" THEN <<"ping", "deliver", "tick", "pongback", "tick">>
+             ELSE IF Script = "ping" THEN <<"ping">> ELSE <<>>
 WF4 == <<"ready", "write", "flush", "flush">>
 WF3 == <<"ready", "write", "flush">>
 RD  == <<"read">>
@@ -65,13 +68,13 @@ VARIABLES pc, cont, frame, io, opn,  \* control: state, continuation / frame / r
           nconn, allowed, ndisc, discId,     \* what the access control saw
           reg,        \* connection reached Clients::register
           active, inactive,                  \* registry
-          cancelled, msgq, svc, cause, displaced,
+          cancelled, msgq, svc, cause, displaced, pinged,
           shut, faults, faultAt, ownerAtFault,
           hist,       \* per connection: the steps taken (scenario for the harness)
           order       \* global order of the environment's steps: <<connection, event>>
 cvars == <<pc, cont, frame, io, opn>>
 vars == <<pc, cont, frame, io, opn, owner, id, nextId, nconn, allowed, ndisc, discId, reg, active, inactive,
-          cancelled, msgq, svc, cause, displaced, shut, faults, faultAt, ownerAtFault, hist, order>>
+          cancelled, msgq, svc, cause, displaced, pinged, shut, faults, faultAt, ownerAtFault, hist, order>>
 
 Init ==
   /\ pc = [c \in Conns |-> "idle"] /\ cont = [c \in Conns |-> "-"] /\ frame = [c \in Conns |-> "-"]
@@ -81,7 +84,7 @@ Init ==
   /\ discId = [c \in Conns |-> 0] /\ reg = [c \in Conns |-> FALSE]
   /\ active = [k \in Keys |-> None] /\ inactive = [k \in Keys |-> <<>>]
   /\ cancelled = [c \in Conns |-> FALSE] /\ msgq = [c \in Conns |-> 0] /\ svc = [c \in Conns |-> 0]
-  /\ cause = [c \in Conns |-> "-"] /\ displaced = [c \in Conns |-> FALSE]
+  /\ cause = [c \in Conns |-> "-"] /\ displaced = [c \in Conns |-> FALSE] /\ pinged = [c \in Conns |-> FALSE]
   /\ shut = FALSE /\ faults = 0 /\ faultAt = [c \in Conns |-> "-"] /\ ownerAtFault = [c \in Conns |-> "-"]
   /\ hist = [c \in Conns |-> <<>>] /\ order = <<>>
 
@@ -107,7 +110,7 @@ IoStep(c) ==
   /\ pc' = [pc EXCEPT ![c] = IF Tail(io[c]) = <<>> THEN cont[c] ELSE "io"]
   /\ Log(c, [ev |-> "io", f |-> frame[c], op |-> Head(io[c]), ok |-> TRUE])
   /\ UNCHANGED <<cont, frame, owner, id, nextId, nconn, allowed, ndisc, discId, reg, active, inactive,
-                 cancelled, msgq, svc, cause, displaced, shut, faults, faultAt, ownerAtFault>>
+                 cancelled, msgq, svc, cause, displaced, pinged, shut, faults, faultAt, ownerAtFault>>
 
 IoFail(c) ==
   /\ pc[c] = "io" /\ io[c] # <<>> /\ faults < MaxFaults
@@ -117,11 +120,11 @@ IoFail(c) ==
   /\ pc' = [pc EXCEPT ![c] = IF InService(c) THEN "exit" ELSE "unwind"]
   /\ Log(c, [ev |-> "io", f |-> frame[c], op |-> Head(io[c]), ok |-> FALSE])
   /\ UNCHANGED <<owner, id, nextId, nconn, allowed, ndisc, discId, reg, active, inactive,
-                 cancelled, msgq, svc, cause, displaced, shut>>
+                 cancelled, msgq, svc, cause, displaced, pinged, shut>>
 
 \* ---------------- admission: Inner::accept ----------------
 Rest == <<owner, id, nextId, nconn, allowed, ndisc, discId, reg, active, inactive, cancelled, msgq, svc, cause,
-          displaced, shut, faults, faultAt, ownerAtFault>>
+          displaced, pinged, shut, faults, faultAt, ownerAtFault>>
 
 Start(c) ==
   /\ pc[c] = "idle" /\ ~shut /\ EnvOk
@@ -146,7 +149,7 @@ NewRequest(c) ==
   /\ pc[c] = "new_request" /\ Goto(c, "on_connect")
   /\ id' = [id EXCEPT ![c] = nextId] /\ nextId' = nextId + 1
   /\ UNCHANGED <<owner, nconn, allowed, ndisc, discId, reg, active, inactive, cancelled, msgq, svc, cause,
-                 displaced, shut, faults, faultAt, ownerAtFault, hist, order>>
+                 displaced, pinged, shut, faults, faultAt, ownerAtFault, hist, order>>
 
 OnConnect(c) ==
   /\ pc[c] = "on_connect"
@@ -158,23 +161,23 @@ OnConnect(c) ==
           ELSE Goto(c, "make_guard")
        /\ Log(c, [ev |-> "on_connect", f |-> d, op |-> "-", ok |-> TRUE])
   /\ UNCHANGED <<owner, id, nextId, ndisc, discId, reg, active, inactive, cancelled, msgq, svc, cause,
-                 displaced, shut, faults, faultAt, ownerAtFault>>
+                 displaced, pinged, shut, faults, faultAt, ownerAtFault>>
 
 MakeGuard(c) ==
   /\ pc[c] = "make_guard" /\ owner' = [owner EXCEPT ![c] = "authorize"]
   /\ IF GuardLate THEN Goto(c, "ret_guard") ELSE BeginIo(c, "confirm", WF4, "ret_guard")
   /\ UNCHANGED <<id, nextId, nconn, allowed, ndisc, discId, reg, active, inactive, cancelled, msgq, svc, cause,
-                 displaced, shut, faults, faultAt, ownerAtFault, hist, order>>
+                 displaced, pinged, shut, faults, faultAt, ownerAtFault, hist, order>>
 
 RetGuard(c) ==
   /\ pc[c] = "ret_guard" /\ owner' = [owner EXCEPT ![c] = "accept"] /\ Goto(c, "build_config")
   /\ UNCHANGED <<id, nextId, nconn, allowed, ndisc, discId, reg, active, inactive, cancelled, msgq, svc, cause,
-                 displaced, shut, faults, faultAt, ownerAtFault, hist, order>>
+                 displaced, pinged, shut, faults, faultAt, ownerAtFault, hist, order>>
 
 BuildConfig(c) ==
   /\ pc[c] = "build_config" /\ owner' = [owner EXCEPT ![c] = "config"] /\ Goto(c, "register")
   /\ UNCHANGED <<id, nextId, nconn, allowed, ndisc, discId, reg, active, inactive, cancelled, msgq, svc, cause,
-                 displaced, shut, faults, faultAt, ownerAtFault, hist, order>>
+                 displaced, pinged, shut, faults, faultAt, ownerAtFault, hist, order>>
 
 \* Clients::register: the guard moves into the spawned actor; an older connection is deactivated
 Register(c) ==
@@ -185,7 +188,7 @@ Register(c) ==
   /\ inactive' = IF old = None THEN inactive ELSE [inactive EXCEPT ![k] = Append(@, old)]
   /\ msgq' = IF old = None THEN msgq ELSE [msgq EXCEPT ![old] = @ + 1]      \* SameEndpointIdConnected
   /\ Log(c, [ev |-> "register", f |-> "-", op |-> "-", ok |-> TRUE])
-  /\ UNCHANGED <<id, nextId, nconn, allowed, ndisc, discId, cancelled, svc, cause, displaced, shut, faults,
+  /\ UNCHANGED <<id, nextId, nconn, allowed, ndisc, discId, cancelled, svc, cause, displaced, pinged, shut, faults,
                  faultAt, ownerAtFault>>
 
 \* the `?` leaves accept(): locals are dropped, among them a guard that was already created
@@ -195,13 +198,13 @@ Unwind(c) ==
         THEN /\ owner' = [owner EXCEPT ![c] = "dropped"]
              /\ ndisc' = [ndisc EXCEPT ![c] = @ + 1] /\ discId' = [discId EXCEPT ![c] = id[c]]
         ELSE UNCHANGED <<owner, ndisc, discId>>
-  /\ UNCHANGED <<id, nextId, nconn, allowed, reg, active, inactive, cancelled, msgq, svc, cause, displaced, shut,
+  /\ UNCHANGED <<id, nextId, nconn, allowed, reg, active, inactive, cancelled, msgq, svc, cause, displaced, pinged, shut,
                  faults, faultAt, ownerAtFault, hist, order>>
 
 \* ---------------- service: Actor::run_inner ----------------
 Serving(c) == pc[c] = "serve" /\ ~cancelled[c]       \* `biased`: the cancellation arm comes first
 SvcRest == <<owner, id, nextId, nconn, allowed, ndisc, discId, reg, active, inactive, cancelled, msgq, cause,
-             displaced, shut, faults, faultAt, ownerAtFault>>
+             displaced, pinged, shut, faults, faultAt, ownerAtFault>>
 
 SvcPing(c) ==      \* stream.next() returns a client Ping; handle_frame writes the Pong
   /\ Serving(c) /\ svc[c] < Len(SvcScript) /\ SvcScript[svc[c] + 1] = "ping" /\ EnvOk
@@ -213,22 +216,40 @@ SvcDeliver(c) ==   \* a packet from another client arrives in packet_send_queue
   /\ Serving(c) /\ svc[c] < Len(SvcScript) /\ SvcScript[svc[c] + 1] = "deliver" /\ EnvOk
   /\ svc' = [svc EXCEPT ![c] = @ + 1] /\ BeginIo(c, "packet", WF3, "loop_flush")
   /\ Env(c, "deliver", "-") /\ UNCHANGED SvcRest
+SvcRest2 == <<owner, id, nextId, nconn, allowed, ndisc, discId, reg, active, inactive, cancelled, msgq, cause,
+              displaced, shut, faults, faultAt, ownerAtFault>>
+SvcTick(c) ==      \* ping_interval.tick(): the server's keep-alive Ping is written (PING_INTERVAL + jitter passed)
+  /\ Serving(c) /\ svc[c] < Len(SvcScript) /\ SvcScript[svc[c] + 1] = "tick" /\ EnvOk
+  /\ svc' = [svc EXCEPT ![c] = @ + 1] /\ BeginIo(c, "srvping", WF3, "loop_flush")
+  /\ pinged' = [pinged EXCEPT ![c] = TRUE]
+  /\ Env(c, "tick", "-") /\ UNCHANGED SvcRest2
+SvcPongBack(c) ==  \* the client answers the keep-alive: stream.next() returns Pong, ping_tracker.pong_received
+  /\ Serving(c) /\ svc[c] < Len(SvcScript) /\ SvcScript[svc[c] + 1] = "pongback" /\ EnvOk /\ pinged[c]
+  /\ svc' = [svc EXCEPT ![c] = @ + 1] /\ BeginIo(c, "pongback", RD, "loop_flush")
+  /\ pinged' = [pinged EXCEPT ![c] = FALSE]
+  /\ Env(c, "pongback", "-") /\ UNCHANGED SvcRest2
 ActorMsg(c) ==     \* message_send_queue: status after being displaced
   /\ Serving(c) /\ msgq[c] > 0
   /\ msgq' = [msgq EXCEPT ![c] = @ - 1] /\ BeginIo(c, "status", WF3, "loop_flush")
   /\ UNCHANGED <<owner, id, nextId, nconn, allowed, ndisc, discId, reg, active, inactive, cancelled, svc, cause,
-                 displaced, shut, faults, faultAt, ownerAtFault, hist, order>>
+                 displaced, pinged, shut, faults, faultAt, ownerAtFault, hist, order>>
 LoopFlush(c) == /\ pc[c] = "loop_flush" /\ BeginIo(c, "loop", FL, "serve")
                 /\ UNCHANGED <<svc, hist, order>> /\ UNCHANGED SvcRest
 
 ScriptDone(c) == Serving(c) /\ svc[c] = Len(SvcScript) /\ msgq[c] = 0
+PongTimeout(c) ==  \* ping_tracker.timeout(): no pong within PING_TIMEOUT: break, no final flush
+  /\ ScriptDone(c) /\ pinged[c] /\ cause[c] = "-" /\ "pong_timeout" \in Causes /\ EnvOk
+  /\ cause' = [cause EXCEPT ![c] = "pong_timeout"] /\ Goto(c, "exit")
+  /\ Env(c, "pong_timeout", "-")
+  /\ UNCHANGED <<owner, id, nextId, nconn, allowed, ndisc, discId, reg, active, inactive, cancelled, msgq, svc,
+                 displaced, pinged, shut, faults, faultAt, ownerAtFault>>
 \* another connection of the same endpoint registers (Helper: not tracked as a connection of its own)
 Displace(c) ==
   /\ Helper /\ "displaced" \in Causes /\ ScriptDone(c) /\ cause[c] = "-" /\ active[KeyOf[c]] = c /\ EnvOk
   /\ cause' = [cause EXCEPT ![c] = "displaced"] /\ displaced' = [displaced EXCEPT ![c] = TRUE]
   /\ msgq' = [msgq EXCEPT ![c] = @ + 1]
   /\ Env(c, "displace", "-")
-  /\ UNCHANGED <<owner, id, nextId, nconn, allowed, ndisc, discId, reg, active, inactive, cancelled, svc, shut,
+  /\ UNCHANGED <<owner, id, nextId, nconn, allowed, ndisc, discId, reg, active, inactive, cancelled, svc, pinged, shut,
                  faults, faultAt, ownerAtFault>> /\ UNCHANGED cvars
 Close(c) ==
   /\ ScriptDone(c) /\ ((cause[c] = "-" /\ "close" \in Causes) \/ cause[c] = "displaced") /\ EnvOk
@@ -236,14 +257,14 @@ Close(c) ==
   /\ BeginIo(c, "eof", RD, "exit")
   /\ Env(c, "close", "-")
   /\ UNCHANGED <<owner, id, nextId, nconn, allowed, ndisc, discId, reg, active, inactive, cancelled, msgq, svc,
-                 displaced, shut, faults, faultAt, ownerAtFault>>
+                 displaced, pinged, shut, faults, faultAt, ownerAtFault>>
 Disconnect(c, how) ==
   /\ ScriptDone(c) /\ cause[c] = "-" /\ how \in Causes /\ InRegistry(c) /\ EnvOk
   /\ cause' = [cause EXCEPT ![c] = how]
   /\ cancelled' = IF how = "disc_id" THEN [cancelled EXCEPT ![c] = TRUE]
                   ELSE [d \in Conns |-> cancelled[d] \/ (KeyOf[d] = KeyOf[c] /\ InRegistry(d))]
   /\ Env(c, how, "-")
-  /\ UNCHANGED <<owner, id, nextId, nconn, allowed, ndisc, discId, reg, active, inactive, msgq, svc, displaced,
+  /\ UNCHANGED <<owner, id, nextId, nconn, allowed, ndisc, discId, reg, active, inactive, msgq, svc, displaced, pinged,
                  shut, faults, faultAt, ownerAtFault>> /\ UNCHANGED cvars
 \* Clients::shutdown (the supervisor has stopped accepting: no connection is inside accept())
 Shutdown ==
@@ -256,7 +277,7 @@ Shutdown ==
   /\ active' = [k \in Keys |-> None] /\ inactive' = [k \in Keys |-> <<>>]
   /\ hist' = [c \in Conns |-> IF InRegistry(c) THEN Append(hist[c], [ev |-> "shutdown", f |-> "-", op |-> "-", ok |-> TRUE]) ELSE hist[c]]
   /\ order' = Append(order, <<"-", "shutdown">>)
-  /\ UNCHANGED <<owner, id, nextId, nconn, allowed, ndisc, discId, reg, msgq, svc, displaced, faults, faultAt, ownerAtFault>>
+  /\ UNCHANGED <<owner, id, nextId, nconn, allowed, ndisc, discId, reg, msgq, svc, displaced, pinged, faults, faultAt, ownerAtFault>>
   /\ UNCHANGED cvars
 
 CancelObserved(c) ==
@@ -275,24 +296,26 @@ Exit(c) ==
                      /\ msgq' = [msgq EXCEPT ![inactive[k][Len(inactive[k])]] = @ + 1]     \* Healthy
                 ELSE active' = [active EXCEPT ![k] = None] /\ UNCHANGED <<inactive, msgq>>
         ELSE inactive' = [inactive EXCEPT ![k] = RemoveFrom(@, c)] /\ UNCHANGED <<active, msgq>>
-  /\ UNCHANGED <<id, nextId, nconn, allowed, ndisc, discId, reg, cancelled, svc, cause, displaced, shut, faults,
+  /\ UNCHANGED <<id, nextId, nconn, allowed, ndisc, discId, reg, cancelled, svc, cause, displaced, pinged, shut, faults,
                  faultAt, ownerAtFault, hist, order>>
 DropGuard(c) ==
   /\ pc[c] = "drop" /\ Goto(c, "gone") /\ owner' = [owner EXCEPT ![c] = "dropped"]
   /\ ndisc' = [ndisc EXCEPT ![c] = @ + 1] /\ discId' = [discId EXCEPT ![c] = id[c]]
-  /\ UNCHANGED <<id, nextId, nconn, allowed, reg, active, inactive, cancelled, msgq, svc, cause, displaced, shut,
+  /\ UNCHANGED <<id, nextId, nconn, allowed, reg, active, inactive, cancelled, msgq, svc, cause, displaced, pinged, shut,
                  faults, faultAt, ownerAtFault, hist, order>>
 
 Next == \/ \E c \in Conns : \/ IoStep(c) \/ IoFail(c) \/ Start(c) \/ ReadAuth(c) \/ Verify(c) \/ NewRequest(c)
                             \/ OnConnect(c) \/ MakeGuard(c) \/ RetGuard(c) \/ BuildConfig(c) \/ Register(c) \/ Unwind(c)
-                            \/ SvcPing(c) \/ DoPong(c) \/ SvcDeliver(c) \/ ActorMsg(c) \/ LoopFlush(c)
+                            \/ SvcPing(c) \/ DoPong(c) \/ SvcDeliver(c) \/ SvcTick(c) \/ SvcPongBack(c) \/ PongTimeout(c)
+                            \/ ActorMsg(c) \/ LoopFlush(c)
                             \/ Displace(c) \/ Close(c) \/ CancelObserved(c) \/ Exit(c) \/ DropGuard(c)
         \/ \E c \in Conns, how \in {"disc_id", "disc_key"} : Disconnect(c, how)
         \/ Shutdown
 Spec == Init /\ [][Next]_vars
 \* server steps are fair; a started connection's client eventually closes or the server shuts down
 ServerStep(c) == IoStep(c) \/ ReadAuth(c) \/ Verify(c) \/ NewRequest(c) \/ OnConnect(c) \/ MakeGuard(c) \/ RetGuard(c)
-                 \/ BuildConfig(c) \/ Register(c) \/ Unwind(c) \/ SvcPing(c) \/ DoPong(c) \/ SvcDeliver(c) \/ ActorMsg(c)
+                 \/ BuildConfig(c) \/ Register(c) \/ Unwind(c) \/ SvcPing(c) \/ DoPong(c) \/ SvcDeliver(c) \/ SvcTick(c)
+                 \/ SvcPongBack(c) \/ PongTimeout(c) \/ ActorMsg(c)
                  \/ LoopFlush(c) \/ CancelObserved(c) \/ Exit(c) \/ DropGuard(c)
 FairSpec == Spec /\ \A c \in Conns : WF_vars(ServerStep(c)) /\ WF_vars(Close(c))
 
@@ -320,7 +343,7 @@ Monotone == [][ \A c \in Conns : ndisc'[c] >= ndisc[c] /\ nconn'[c] >= nconn[c] 
 
 \* exhaustive runs hide the step log
 View == <<pc, cont, frame, io, opn, owner, id, nextId, nconn, allowed, ndisc, discId, reg, active, inactive,
-          cancelled, msgq, svc, cause, displaced, shut, faults, faultAt, ownerAtFault>>
+          cancelled, msgq, svc, cause, displaced, pinged, shut, faults, faultAt, ownerAtFault>>
 
 \* scenario generator (single connection): one REPLAY line per finished behaviour
 AllDone == \A c \in Conns : Done(c)
